@@ -116,6 +116,7 @@ def edge_class(src, dst):
         cur = _at(src['row'], o)
         key += [str(_at(_at(src['status'], s), o)), tuple(sorted(_at(_at(src['rbits'], s), o))),
                 tuple(sorted(_at(_at(src['wbits'], s), o))), tuple(sorted(_at(_at(src['notLoaded'], s), o))),
+                tuple(sorted(_at(_at(src['written'], s), o))), tuple(sorted(_at(_at(src['oldReads'], s), o))),
                 o in _at(src['forUpdate'], s),
                 bool(_at(src['exists'], o)), tuple(sorted(x for x in ('a', 'b') if dv[x] != cur[x]))]
     else:
@@ -127,7 +128,8 @@ def edge_class(src, dst):
             ex = bool(_at(src['exists'], p))
             changed = tuple(sorted((x, int(cur[x])) for x in ('a', 'b') if ex and stp != 'none' and dv[x] != cur[x]))
             per.append((stp, ex, tuple(sorted(_at(_at(src['rbits'], s), p))), tuple(sorted(_at(_at(src['wbits'], s), p))),
-                        tuple(sorted(_at(_at(src['notLoaded'], s), p))), changed, p in _at(src['forUpdate'], s)))
+                        tuple(sorted(_at(_at(src['notLoaded'], s), p))), tuple(sorted(_at(_at(src['written'], s), p))),
+                        tuple(sorted(_at(_at(src['oldReads'], s), p))), changed, p in _at(src['forUpdate'], s)))
         key.append(tuple(per))
     return tuple(key)
 
@@ -215,8 +217,12 @@ def scripts_from_graph(nodes, edges, inits, kinds, limit=None, variant_of=lambda
     def room():
         return limit is None or len(scripts) < limit
 
-    # 1. one edge per class, rarest classes first
-    for c in sorted(members, key=lambda c: (len(members[c]), repr(c))):
+    # 1. one edge per class; classes whose outcome is an error, `blocked` or `none` first (that is where pony's
+    #    protection mechanisms act), then the rarest classes
+    def prio(c):
+        out = c[5] if len(c) > 5 else 'ok'
+        return (out == 'ok', len(members[c]), repr(c))
+    for c in sorted(members, key=prio):
         if not room():
             break
         if c in covered_classes:
@@ -271,6 +277,8 @@ class StepLock(object):
 def _attr(kind, variant, other):
     if kind == 'opt':
         return Required(int)
+    if kind == 'null':
+        return Optional(int)          # nullable, NULL initially: the specification's value 0
     if kind == 'nonopt':
         return Required(float) if variant % 2 else Required(int, optimistic=False)
     if kind == 'volatile':
@@ -317,7 +325,7 @@ class World(object):
             for o in range(1, no + 1):
                 vals = {}
                 for name, k in zip('ab', kinds):
-                    vals[name] = (p if o == 1 else None) if k == 'link' else 0
+                    vals[name] = (p if o == 1 else None) if k == 'link' else (None if k == 'null' else 0)
                 self.S(id=o, u=10 + o, **vals)
         db.disconnect()
         shutil.copyfile(self.path, self.template)
@@ -340,7 +348,7 @@ class World(object):
         return rows
 
     def _col(self, i, v):
-        if self.kinds[i] == 'link':
+        if self.kinds[i] in ('link', 'null'):
             return 0 if v is None else int(v)
         return int(v)
 
@@ -413,6 +421,8 @@ class Worker(threading.Thread):
                 v = getattr(obj, cmd['x'])
                 if cmd['x'] == w.link:
                     v = 0 if v is None else v.id
+                elif v is None and w.kinds['ab'.index(cmd['x'])] == 'null':
+                    v = 0
                 return ('ok', v)
             if k == 'W':
                 v = cmd['wval']
